@@ -2809,12 +2809,12 @@ static WBXMLError decode_wv_integer(WBXMLBuffer **data)
         if (!wbxml_buffer_get_char(*data, i, &ch))
             return WBXML_ERROR_INTERNAL;
     
+        /* Check integer overflow: the next shift must not drop a significant octet */
+        if ( the_int > 0x00ffffff )
+            return WBXML_ERROR_WV_INTEGER_OVERFLOW;
+    
         the_int = (the_int << 8) | (ch & 0xff);
     }
-  
-    /* Check integer overflow */
-    if ( the_int > 0xffffffff )
-        return WBXML_ERROR_WV_INTEGER_OVERFLOW;
   
     sprintf((WB_TINY *)tmp, "%u", the_int);
 
